@@ -224,20 +224,33 @@ func (h *Hello) MarshalBinary() (data []byte, err error) {
 func (h *Hello) UnmarshalBinary(data []byte) error {
 	next := 0
 	err := h.Header.UnmarshalBinary(data[next:])
+	if err != nil {
+		return err
+	}
 	next += int(h.Header.Len())
 
 	h.Elements = make([]HelloElem, 0)
 	for next < len(data) {
 		e := NewHelloElemHeader()
-		e.UnmarshalBinary(data[next:])
+		if err = e.UnmarshalBinary(data[next:]); err != nil {
+			return err
+		}
+		if e.Length < 4 || next+int(e.Length) > len(data) {
+			return errors.New("The hello element length is out of range.")
+		}
 
 		switch e.Type {
 		case HelloElemType_VersionBitmap:
 			v := NewHelloElemVersionBitmap()
-			err = v.UnmarshalBinary(data[next:])
-			next += int(v.Len())
+			// the element owns exactly Length bytes
+			if err = v.UnmarshalBinary(data[next : next+int(e.Length)]); err != nil {
+				return err
+			}
 			h.Elements = append(h.Elements, v)
 		}
+		// Elements are padded to a multiple of 8 bytes; elements of an
+		// unknown type must be skipped.
+		next += (int(e.Length) + 7) / 8 * 8
 	}
-	return err
+	return nil
 }
